@@ -116,6 +116,8 @@ class BaseTcpServerHandler(Work[T]):
     def __init__(self, *args: Any, **kwargs: Any) -> None:
         super().__init__(*args, **kwargs)
         self.must_flush_before_shutdown = False
+        # Client has signalled end of stream (it may still be reading)
+        self.client_sent_eof = False
         logger.debug(
             'Work#%d accepted from %s',
             self.work.connection.fileno(),
@@ -213,6 +215,7 @@ class BaseTcpServerHandler(Work[T]):
                         self.work.address,
                     ),
                 )
+                self.client_sent_eof = True
                 if self.work.has_buffer():
                     # Client may only have closed its sending side,
                     # flush what is pending for it before shutting down
